@@ -1,11 +1,14 @@
 //! ccmc: explicit-state model checking of rust-cc by history replay against the real crate.
 
 mod alloc;
+mod bfs;
 mod crash;
 mod explore;
 mod json;
 mod lens;
 mod ops;
+#[cfg(feature = "auto")]
+mod policy;
 mod world;
 
 use std::collections::HashMap;
@@ -83,6 +86,82 @@ fn build_cfg_name() -> String {
 
 fn viol_json(v: &world::Violation) -> J {
     J::obj(vec![("property", J::s(v.prop)), ("predicate", J::s(v.pred)), ("message", J::s(&v.msg))])
+}
+
+#[cfg(feature = "auto")]
+fn policy_enc(o: &policy::POp) -> String {
+    use policy::POp::*;
+    match o {
+        Alloc(k) => format!("a:{}", k),
+        Free(k) => format!("f:{}", k),
+        Garbage(k) => format!("g:{}", k),
+        Buffer(k) => format!("b:{}", k),
+        Collect => "c:0".to_string(),
+        SetPercent(k) => format!("p:{}", k),
+        SetBuffered(k) => format!("t:{}", k),
+        SetAuto(k) => format!("u:{}", *k as u8),
+    }
+}
+
+#[cfg(feature = "auto")]
+fn policy_parse(s: &str) -> Vec<policy::POp> {
+    use policy::POp::*;
+    s.split(',')
+        .filter(|x| !x.is_empty())
+        .map(|x| {
+            let (c, n) = x.split_once(':').expect("bad op");
+            let n: u8 = n.parse().expect("bad op");
+            match c {
+                "a" => Alloc(n),
+                "f" => Free(n),
+                "g" => Garbage(n),
+                "b" => Buffer(n),
+                "c" => Collect,
+                "p" => SetPercent(n),
+                "t" => SetBuffered(n),
+                "u" => SetAuto(n != 0),
+                _ => panic!("bad op"),
+            }
+        })
+        .collect()
+}
+
+fn bfs_json<O>(engine: &str, r: &bfs::BfsResult<O>, pretty: impl Fn(&[O]) -> String, enc: impl Fn(&[O]) -> String) -> J {
+    J::obj(vec![
+        ("lens", J::s(engine)),
+        ("build", J::s(&build_cfg_name())),
+        ("states", J::n(r.states as f64)),
+        ("transitions", J::n(r.transitions as f64)),
+        ("executions", J::n(r.transitions as f64)),
+        ("max_depth_completed", J::n(r.max_depth_completed as f64)),
+        ("fixpoint", J::Bool(r.fixpoint)),
+        ("cut_reason", r.cut_reason.as_ref().map_or(J::Null, |s| J::s(s))),
+        ("level_sizes", J::Arr(r.level_sizes.iter().map(|x| J::n(*x as f64)).collect())),
+        ("samples", J::Arr(r.samples.iter().map(|h| J::s(&pretty(h))).collect())),
+        ("vacuity", J::Obj(r.tags.iter().map(|(k, v)| (k.to_string(), J::n(*v as f64))).collect())),
+        ("machinery_errors", J::Arr(vec![])),
+        (
+            "found",
+            J::Arr(
+                r.found
+                    .iter()
+                    .take(10)
+                    .map(|f| J::obj(vec![("history", J::s(&enc(&f.history))), ("history_pretty", J::s(&pretty(&f.history))), ("epilogue", J::s("")), ("epilogue_pretty", J::s("")), ("violations", J::Arr(f.violations.iter().map(viol_json).collect()))]))
+                    .collect(),
+            ),
+        ),
+        ("lens_args", J::s(&std::env::args().skip(1).collect::<Vec<_>>().join(" "))),
+        ("wall_s", J::n(r.wall_s)),
+    ])
+}
+
+fn emit(m: &HashMap<String, String>, out: &J, ok: bool) -> ! {
+    let text = out.to_string();
+    match m.get("out") {
+        Some(p) => std::fs::write(p, text).expect("write out"),
+        None => println!("{}", text),
+    }
+    std::process::exit(if ok { 0 } else { 1 });
 }
 
 fn main() {
@@ -222,6 +301,37 @@ fn main() {
                 std::process::exit(2);
             }
             std::process::exit(if r.violations.is_empty() { 0 } else { 1 });
+        },
+        #[cfg(feature = "auto")]
+        "policy" => {
+            let getf = |k: &str, d: f64| -> f64 { m.get(k).map_or(d, |v| v.parse().expect("bad number")) };
+            if let Err(e) = policy::check_box_sizes() {
+                eprintln!("MACHINERY: {}", e);
+                std::process::exit(2);
+            }
+            let sys = policy::PolicySys {
+                max_live: getf("max-live", 3.0) as usize,
+                max_objects: getf("max-objects", 4.0) as usize,
+                sizes: m.get("sizes").map(|s| parse_list(s)).unwrap_or_else(|| vec![0, 1, 2, 3, 4, 5]),
+                percents: m.get("percents").map(|s| parse_list(s)).unwrap_or_else(|| vec![0, 1, 2, 3, 4, 5, 6]),
+            };
+            if let Some(h) = m.get("history") {
+                // replay: history given as debug strings separated by ';' is not parsed; use indices "a:1,f:0,..."
+                let ops = policy_parse(h);
+                use bfs::Sys;
+                sys.thread_init();
+                for i in 0..=ops.len() {
+                    let r = sys.run(&ops[..i]);
+                    println!("after {:?}: key {:032x} violations {:?}", if i == 0 { None } else { Some(ops[i - 1]) }, r.key, r.violations.iter().map(|v| &v.msg).collect::<Vec<_>>());
+                    if !r.violations.is_empty() {
+                        std::process::exit(1);
+                    }
+                }
+                std::process::exit(0);
+            }
+            let r = bfs::bfs(&sys, getf("depth", 6.0) as usize, getf("max-states", 2.0e7) as u64, getf("max-seconds", 3600.0), getf("threads", 16.0) as usize);
+            let out = bfs_json("policy", &r, |h| h.iter().map(|o| format!("{:?}", o)).collect::<Vec<_>>().join(" ; "), |h| h.iter().map(policy_enc).collect::<Vec<_>>().join(","));
+            emit(&m, &out, r.found.is_empty());
         },
         _ => {
             eprintln!("usage: ccmc explore|replay --lens <{}> [--n N --v V --depth D --faults F ...]", lens::lens_names().join("|"));
